@@ -34,7 +34,7 @@ HISTORIES = {"quick": 12, "thorough": 200}
 NSHARDS = 16
 SHARD_TIMEOUT = {"quick": 900, "thorough": 3600}
 
-POOL = ["foo", "foobar", "foo_bar", "fo", "foo.sub", "foo.sub.deep", "foo.subx", "foobar.sub", "bar", "bar.foo", "barn", "ns.inner", "ns.inner2", "foo.sub_extra"]
+POOL = ["foo", "foobar", "foo_bar", "fo", "foo.sub", "foo.sub.deep", "foo.subx", "foobar.sub", "bar", "bar.foo", "barn", "ns.inner", "ns.inner2", "foo.sub_extra", "foo_sub", "bar_foo", "fooxsub", "foo_sub.deep"]  # (foo_sub / fooxsub: what a dotted hook name matches if its dot is read as a regex dot)
 
 
 def shards(tier):
